@@ -78,3 +78,4 @@ func vFSSyncAll()                  { panic("intrinsic") }
 func vBlobID(b []byte) uint64      { panic("intrinsic") }
 func vFileContent(b *bufferedFile) uint64 { panic("intrinsic") }
 func vFSCorruptFile(path string) bool { panic("intrinsic") }
+func vTimerFor(site string, mode int) { panic("intrinsic") }
